@@ -331,8 +331,22 @@ def entry_cases(jobs):
                 obs["err"] = describe(build_err)
                 steps.append({"shape": sh, "obs": obs})
                 continue
-            args = [bw.instance(top, fresh=True) for _ in range(sh["np"])]
-            kw = {k: bw.instance(top, fresh=True) for k in sh["kws"]}
+            if job.get("eqmode"):
+                # argument objects with a permissive / raising __eq__: the dispatcher must only ever use identity
+                def _eq_true(self, other):
+                    return True
+
+                def _eq_raise(self, other):
+                    raise ValueError("ambiguous truth value")
+
+                Wcls = type("Weird", (bw.classes[top],), {"__eq__": _eq_true if job["eqmode"] == "true" else _eq_raise,
+                                                           "__hash__": object.__hash__, "__module__": "vfworld"})
+                bw.clsid[Wcls] = top
+                mk_arg = Wcls
+            else:
+                mk_arg = lambda: bw.instance(top, fresh=True)  # noqa
+            args = [mk_arg() for _ in range(sh["np"])]
+            kw = {k: mk_arg() for k in sh["kws"]}
             del bw.log[:]
             ret = exc = None
             try:
@@ -476,12 +490,30 @@ class _Graph:
         ov.register(self.make_fn(f"rec{n}", f"def rec{n}(x: R{n}):\n    return recurse(MID)\n"))
         if root:
             ov.register(self.make_fn(f"mid{n}", f"def mid{n}(x: Mid):\n    return recurse(LEAF)\n"))
+        # a recursion into the most specific K class: must walk the very chain a direct call walks
+        ns[f"RK{n}"] = type(f"RK{n}", (), {"__module__": "vfworld"})
+        ns["KTOP"] = self.classes[len(self.classes) - 1]()
+        ov.register(self.make_fn(f"rk{n}", f"def rk{n}(x: RK{n}):\n    return recurse(KTOP)\n"))
 
     def ancestors(self, n):
         out = set()
         for p in self.mix[n]:
             out |= {p} | self.ancestors(p)
         return out
+
+    def rprobe2(self, n, a):
+        from .observe import classify
+
+        del self.log[:]
+        try:
+            self.nodes[n](self.ns[f"RK{a}"]())
+            kind = "run"
+        except BaseException as exc:  # noqa
+            kind = classify(exc)
+            exc.__traceback__ = None
+        via = {"kind": kind, "chain": list(self.log)}
+        direct = self.probe(self.nodes[n], len(self.classes) - 1)
+        return {"op": "rprobe2", "n": n, "via": f"RK{a}", "rec": via, "direct": direct}
 
     def rprobe(self, n, a):
         try:
@@ -552,6 +584,8 @@ def graph_replay(jobs):
                     if job.get("recurse", True):
                         for a in sorted(g.ancestors(k) | {k}):
                             steps.append(g.rprobe(k, a))
+                            if g.eff(k):
+                                steps.append(g.rprobe2(k, a))
                     if not g.eff(k):
                         continue
                     fr, fe = g.fresh(k)
@@ -991,24 +1025,28 @@ def dep_cases(jobs):
             out.append({"id": job["id"], "skip": f"{type(e).__name__}: {e}"})
             continue
         steps = []
-        for names in job["calls"]:
+        for cspec in job["calls"]:
+            names = cspec if isinstance(cspec, list) else cspec["pos"]
+            kwspec = {} if isinstance(cspec, list) else cspec.get("kw", {})
             args = [vw.objs[n] for n in names]
-            call = {"pos": [deprt.arg_record(n) for n in names], "kwn": [], "kwa": []}
+            kwargs = {k: vw.objs[n] for k, n in kwspec.items()}
+            call = {"pos": [deprt.arg_record(n) for n in names], "kwn": list(kwspec), "kwa": [deprt.arg_record(n) for n in kwspec.values()]}
             del vw.log[:]
             del vw.predlog[:]
             obs = {"resolve": {"kind": "skip", "m": ""}}
             try:
-                ov(*args)
+                ov(*args, **kwargs)
                 obs["kind"] = "run"
             except BaseException as e:  # noqa
                 obs["kind"] = classify(e)
                 obs["err"] = describe(e)
                 e.__traceback__ = None
             ent = []
-            for j, (mid, a) in enumerate(vw.log):
+            for j, (mid, a, kws) in enumerate(vw.log):
                 m = next(x for x in job["methods"] if x["id"] == mid)
                 nxt = m.get("body") == "next"
-                c = {"pos": [vw.arg_of(x) for x in a], "kwn": [], "kwa": []}
+                kws = {k: v for k, v in kws.items() if v is not deprt.KWDFLT}
+                c = {"pos": [vw.arg_of(x) for x in a], "kwn": list(kws), "kwa": [vw.arg_of(x) for x in kws.values()]}
                 ent.append({"m": mid, "call": c, "next": {"has": nxt, "call": c if nxt else {"pos": [], "kwn": [], "kwa": []}}})
             obs["entered"] = ent
             obs["predlog"] = list(vw.predlog)
@@ -1029,7 +1067,7 @@ def dep_cases(jobs):
 # ---------------------------------------------------------------------------
 # C11: built-in value types
 # ---------------------------------------------------------------------------
-COMPANIONS = ["plain", "lits4", "deps", "overlap", "lits_then_T"]
+COMPANIONS = ["plain", "lits4", "deps", "overlap", "lits_then_T", "keyed3"]
 
 
 def value_cases(jobs):
@@ -1055,7 +1093,29 @@ def value_cases(jobs):
         def never(x):
             return False
 
+        def build3():
+            # three positions: >= 4 disjoint Literal methods keyed on the first argument, one of them
+            # (registered first, second or third) also constrains the second argument with T
+            ns = {"TT": RT, "Literal": typing.Literal}
+            src = ["def mo(x: object, y: object, z: object):\n    return 'O'\n",
+                   "def mt(x: Literal[0], y: TT, z: object):\n    return 'T'\n"]
+            for j in range(1, 5):
+                src.append(f"def l{j}(x: Literal[{100 + j}], y: object, z: int):\n    return 'L'\n")
+            code = "\n".join(src)
+            fname = f"<vf:val3{id(ns)}>"
+            linecache.cache[fname] = (len(code), None, code.splitlines(True), fname)
+            exec(compile(code, fname, "exec"), ns, ns)
+            ov = Ovld()
+            pos = job.get("k3pos", 1)
+            order = ["mo", "l1", "l2", "l3", "l4"]
+            order.insert(1 + pos % 5, "mt")
+            for name in order:
+                ov.register(ns[name])
+            return lambda v: ov(0, v, 5)
+
         def build(comp):
+            if comp == "keyed3":
+                return build3()
             ns = {"TT": RT, "Literal": typing.Literal, "Dependent": Dependent, "never": never}
             src = ["def mo(x: object):\n    return 'O'\n", "def mt(x: TT):\n    return 'T'\n"]
             order = ["mo", "mt"]
